@@ -6,7 +6,7 @@
     client side with ANY batch splitter that keeps the sequence), Engine.IO control packets sent
     concurrently, the peer's parser, one dispatch goroutine per finished packet.
     "For all schedules" = for every state reachable by any sequence of actions. *)
-From SioV Require Import Base.Conc Sio.Pipeline Sio.PipelineProofs Sio.PipelineCheck Sio.PipelineInst.
+From SioV Require Import Base.Conc Sio.Pipeline Sio.PipelineProofs Sio.PipelineCheck Sio.PipelineInst Sio.PipelineConn Sio.PipelineConnProofs.
 
 (** (a) ON THE WIRE.  Whatever the schedule, the MESSAGE frames the peer has been handed are a
     prefix of [flat_map frames_of ps] where [ps] is an interleaving AT PACKET GRANULARITY of
@@ -108,6 +108,78 @@ Example C02_fifo_example :
   st_entered (run (fun _ : nat => Some 0) 0 (fun b => [b]) WS
                   [Emit 0; Emit 0; DrGet; DrSend; DrSend; Recv; Recv; Dispatch 0; Dispatch 0]
                   witness_progs) = [mkSP 1 []; mkSP 2 []].
+Proof. vm_compute. split; reflexivity. Qed.
+
+(** (c) THE SECOND PRODUCER PATH (Sio/PipelineConn.v): packets emitted before the CONNECT reply are
+    parked in the socket's sendBuffer and flushed by ONE queue add when the reply arrives, while
+    other goroutines - the socket is `Connected` from that instant - emit directly.  Whatever the
+    schedule (emits before, across and after the reply, the stale-read path included): the MESSAGE
+    frames handed to the peer are a prefix of the frames of WHOLE packets, in the order the packets
+    entered the queue; the parked frames are whole packets too. *)
+Theorem C02_conn_contiguity :
+  forall (data : Type) (declared : data -> option nat) (max_atts : nat)
+         (split : list (frame data) -> list (list (frame data))),
+    (forall b, concat (split b) = b) ->
+  forall (tr : transport) (progs : list (list (spacket data))) (c : cstate data),
+    creachable declared max_atts split tr progs c ->
+    (exists rest, msgs (st_wire (c_base c)) ++ rest
+                  = flat_map frames_of (map snd (st_log (c_base c)))) /\
+    c_sendbuf c = flat_map frames_of (map snd (c_parked c)).
+Proof. exact (@conn_contiguity). Qed.
+
+(** Queue + sendBuffer hold exactly the emitted packets (a permutation of the emit calls, which are
+    an interleaving of prefixes of the per-emitter sequences): nothing lost, nothing twice. *)
+Theorem C02_conn_exactly_once :
+  forall (data : Type) (declared : data -> option nat) (max_atts : nat)
+         (split : list (frame data) -> list (list (frame data))),
+    (forall b, concat (split b) = b) ->
+  forall (tr : transport) (progs : list (list (spacket data))) (c : cstate data),
+    creachable declared max_atts split tr progs c ->
+    Permutation.Permutation (c_all c) (c_hist c) /\
+    pops progs (map fst (c_hist c)) = Some (map snd (c_hist c), st_em (c_base c)).
+Proof. exact (@conn_exactly_once). Qed.
+
+(** The peer's parser never fails and finishes the packets in queue order, each with exactly its
+    own attachments - over both producer paths. *)
+Theorem C02_conn_reassembly :
+  forall (data : Type) (declared : data -> option nat) (max_atts : nat)
+         (split : list (frame data) -> list (list (frame data))),
+    (forall b, concat (split b) = b) ->
+  forall (tr : transport) (progs : list (list (spacket data))),
+    Forall (Forall (wf_packet declared max_atts)) progs ->
+  forall c, creachable declared max_atts split tr progs c ->
+    st_rerr (c_base c) = false /\
+    exists k, st_finished (c_base c) = firstn k (map snd (st_log (c_base c))).
+Proof. exact (@conn_reassembly). Qed.
+
+(** Per-emitter ORDER across the connect instant is refuted by the code as it is: one goroutine,
+    two events; the second is emitted after `state = Connected` and before the flush and overtakes
+    the parked first one ([window_sched]; finding connect-window-order:emit-between-connected-and-flush;
+    the live rig reproduces it deterministically by holding emitBuffered in a user handler). *)
+Theorem C02_connect_window_order_refuted :
+  exists (tr : transport) (progs : list (list (spacket nat))) (sched : list caction),
+    Forall (Forall (wf_packet (fun _ => Some 0) 0)) progs /\
+    ~ exists rem, interleaving progs
+                    (map snd (c_all (crun (fun _ => Some 0) 0 (fun b => [b]) tr sched progs))) rem.
+Proof. exact C02_connect_window_refuted_witness. Qed.
+
+(** Partial: if nobody emits between `state = Connected` and the flush and no emit straddles the
+    reply ([window_free], decidable on the schedule), queue + sendBuffer are an interleaving of
+    prefixes of the per-emitter sequences (and by C02_conn_contiguity so is the wire). *)
+Theorem C02_connect_window_order_partial :
+  forall (data : Type) (declared : data -> option nat) (max_atts : nat)
+         (split : list (frame data) -> list (list (frame data)))
+         (tr : transport) (progs : list (list (spacket data))) (sched : list caction),
+    window_free 0 sched = true ->
+    let c := crun declared max_atts split tr sched progs in
+    pops progs (map fst (c_all c)) = Some (map snd (c_all c), st_em (c_base c)).
+Proof. exact (@conn_order_window_free). Qed.
+
+Example C02_window_free_example :
+  window_free 0 [CEmit 0; CConnected; CFlush; CEmit 0; CBase DrGet] = true /\
+  map snd (c_all (crun (fun _ : nat => Some 0) 0 (fun b => [b]) WS
+                       [CEmit 0; CConnected; CFlush; CEmit 0; CBase DrGet] witness_progs))
+  = [mkSP 1 []; mkSP 2 []].
 Proof. vm_compute. split; reflexivity. Qed.
 
 (** The instance for the real long-polling batcher (Eio/Batcher.v, C13): it keeps the sequence. *)
